@@ -1324,6 +1324,10 @@ CaseX86M_GPB_MulDiv:
         imm_value = o2.as<Imm>().value();
         imm_size = 1;
 
+        // A 64-bit IMUL sign-extends imm32, so the immediate must be a signed 32-bit value.
+        if (o0.x86_rm_size() == 8 && !Support::is_int_n<32>(imm_value))
+          goto InvalidImmediate;
+
         if (!Support::is_int_n<8>(imm_value) || Support::test(options, InstOptions::kLongForm)) {
           opcode -= 2;
           imm_size = o0.x86_rm_size() == 2 ? 2 : 4;
@@ -1345,6 +1349,9 @@ CaseX86M_GPB_MulDiv:
         // Sign extend so is_int_n<8> returns the right result.
         if (o0.x86_rm_size() == 4)
           imm_value = sign_extend_int32<int64_t>(imm_value);
+
+        if (o0.x86_rm_size() == 8 && !Support::is_int_n<32>(imm_value))
+          goto InvalidImmediate;
 
         if (!Support::is_int_n<8>(imm_value) || Support::test(options, InstOptions::kLongForm)) {
           opcode -= 2;
@@ -1803,6 +1810,11 @@ CaseX86M_GPB_MulDiv:
 
         imm_value = o1.as<Imm>().value();
         imm_size = FastUInt8(Support::min<uint32_t>(mem_size, 4));
+
+        // There is no `mov m64, imm64`: the 32-bit immediate is sign-extended, so it must be a signed 32-bit value.
+        if (mem_size == 8 && !Support::is_int_n<32>(imm_value))
+          goto InvalidImmediate;
+
         goto EmitX86M;
       }
       break;
@@ -1978,6 +1990,10 @@ CaseX86M_GPB_MulDiv:
       if (isign3 == ENC_OPS1(Imm)) {
         imm_value = o0.as<Imm>().value();
         imm_size = 4;
+
+        // In 64-bit mode PUSH sign-extends imm32 to 64 bits, so the immediate must be a signed 32-bit value.
+        if (is_64bit() && !Support::is_int_n<32>(imm_value))
+          goto InvalidImmediate;
 
         if (Support::is_int_n<8>(imm_value) && !Support::test(options, InstOptions::kLongForm))
           imm_size = 1;
@@ -2266,6 +2282,10 @@ CaseX86PushPop_Gp:
         else {
           imm_value = o1.as<Imm>().value();
           imm_size = FastUInt8(Support::min<uint32_t>(o0.x86_rm_size(), 4));
+
+          // A 64-bit TEST sign-extends imm32, so the immediate must be a signed 32-bit value.
+          if (o0.x86_rm_size() == 8 && !Support::is_int_n<32>(imm_value))
+            goto InvalidImmediate;
         }
 
         // Short form - AL, AX, EAX, RAX.
@@ -2287,6 +2307,10 @@ CaseX86PushPop_Gp:
 
         imm_value = o1.as<Imm>().value();
         imm_size = FastUInt8(Support::min<uint32_t>(o0.x86_rm_size(), 4));
+
+        if (o0.x86_rm_size() == 8 && !Support::is_int_n<32>(imm_value))
+          goto InvalidImmediate;
+
         goto EmitX86M;
       }
       break;
